@@ -158,4 +158,36 @@ def call (k : Kind) (shape : Shape) (blockingBefore : Bool) (limit : Nat) (start
     moved := (final k shape blockingBefore limit start calls waits).moved,
     lastErr := (final k shape blockingBefore limit start calls waits).lastErr }
 
+/-! ### hooked `connect` (`core/src/syscall/unix/connect.rs`)
+
+One inner `connect`; on a blocking descriptor an answer that means "under way" (EINPROGRESS,
+EALREADY, EWOULDBLOCK, EINTR) is followed by one wait for writability of at most a slice, after which
+the socket's own state (`getpeername`, `SO_ERROR`) decides. `peerOk` is that state as the environment
+presents it after the wait: connected without a pending error (the harness uses a connected pair). -/
+
+def EINPROGRESS : Nat := 115
+def EALREADY : Nat := 114
+
+def underWay (e : Nat) : Bool := e == EINPROGRESS || e == EALREADY || e == EAGAIN || e == EINTR
+
+def errnoOf : CResp → Nat
+  | .again => EINPROGRESS     -- the script's "would block" token means EINPROGRESS for connect
+  | .intr => EINTR
+  | .err e => e
+  | .moved _ => 0
+
+def connectCall (blocking : Bool) (limit : Nat) (start : Nat) (first : CResp) (waits : List WResp) : Out :=
+  let base : Out := { ret := 0, errno := 0, reqs := [⟨[], 1⟩], waits := [], blockingAfter := blocking, elapsed := 0, moved := 0, lastErr := none }
+  match first with
+  | .moved _ => base                                            -- connected at once
+  | r =>
+    if !blocking then { base with ret := -1, errno := errnoOf r, lastErr := some (errnoOf r) }
+    else if !underWay (errnoOf r) then { base with ret := -1, errno := errnoOf r, lastErr := some (errnoOf r) }
+    else
+      match waits with
+      | .fail :: _ => { base with ret := -1, errno := errnoOf r, lastErr := some (errnoOf r), waits := [waitTime start limit start] }
+      | .full :: _ => { base with waits := [waitTime start limit start], elapsed := waitTime start limit start, lastErr := some (errnoOf r) }
+      | .ev ns :: _ => { base with waits := [waitTime start limit start], elapsed := min ns (waitTime start limit start), lastErr := some (errnoOf r) }
+      | [] => { base with ret := -1, errno := errnoOf r, lastErr := some (errnoOf r), waits := [waitTime start limit start] }
+
 end Oc.Nio
